@@ -23,6 +23,8 @@ Record prims (S : scalar_ops) := {
   g1_enc : G1 -> bytes;             (* 48 bytes compressed *)
   g1_dec : bytes -> option G1;      (* G1Affine::from_compressed: curve + subgroup checked *)
   G2 : Type;
+  g2_zero : G2;
+  g2_eqb : G2 -> G2 -> bool;
   g2_mul_gen : F S -> G2;           (* BP2 * s *)
   g2_add : G2 -> G2 -> G2;
   g2_enc : G2 -> bytes;             (* 96 bytes compressed *)
@@ -33,7 +35,7 @@ Record prims (S : scalar_ops) := {
 }.
 Arguments G1 {S}. Arguments g1_zero {S}. Arguments g1_add {S}. Arguments g1_neg {S}.
 Arguments g1_mul {S}. Arguments g1_eqb {S}. Arguments g1_enc {S}. Arguments g1_dec {S}.
-Arguments G2 {S}. Arguments g2_mul_gen {S}. Arguments g2_add {S}. Arguments g2_enc {S}.
+Arguments G2 {S}. Arguments g2_zero {S}. Arguments g2_eqb {S}. Arguments g2_mul_gen {S}. Arguments g2_add {S}. Arguments g2_enc {S}.
 Arguments g2_dec {S}. Arguments g2_enc_unc {S}. Arguments g2_dec_unc {S}. Arguments pairing_eq {S}.
 
 (* Ciphersuite constants (regenerated from src/bbsplus/ciphersuites.rs into Generated/Consts.v) *)
